@@ -176,6 +176,12 @@ func (c10RulesFetcher) FetchSourcePackage(ctx context.Context, sourceType string
 	t := c10SymPath("target", verif.Param("sLink", 3))
 	lname := []string{"/c/z", "/c/0"}[verif.Choose("link.name", 2)] // walked after / before the excluded entries
 	envSymlink(targetDir+lname, t, 1000)
+	if verif.Bool("excluded.outward-links") {
+		// links inside directories the rules remove, pointing at a file outside the bundle: they go
+		// away with their directory, and what they point to is not touched on the way
+		envSymlink(targetDir+"/c/d/out", "/w/secret", 1000)
+		envSymlink(targetDir+"/.terraform/p/q/out", "../../../../../secret", 1000)
+	}
 	real := envRealPath(targetDir + lname)
 	realRoot := envRealPath(targetDir) // the target directory may itself be reached through a link
 	defer func() {
